@@ -26,6 +26,7 @@ type input struct {
 	RelicBuilt bool   // relic produced the signature itself: the "relic-built" oracle applies
 	OpenSSL    bool   // also judge by openssl cms -verify / ts -verify
 	Ops        string // "" = all; otherwise comma list
+	Signer     string // relic signer module that produced it (pipeline / cat-resign)
 }
 
 func (in *input) replay(op string, extra map[string]any) map[string]any {
@@ -294,13 +295,21 @@ func verifyIndependently(l *dergen.CMS, ext []byte) failSet {
 	return fs
 }
 
+// tag prefixes outcome classes of the non-enumerated sources with the source.
+func tag(in *input) string {
+	if in.Src == "family" {
+		return ""
+	}
+	return in.Src + "/"
+}
+
 // judge compares output y of operation op with the input layout and raises
 // violations. Returns the located output (nil if it did not locate).
 func judge(in *input, op string, lx *dergen.CMS, inFails failSet, y []byte, ext []byte, o cmpOpts, wholeIdentical bool) *dergen.CMS {
 	run.Eval(1)
 	x := lx.Full.Of(lx.B)
 	if wholeIdentical && bytes.Equal(x, y) {
-		run.Outcome(op + ":byte-identical")
+		run.Outcome(tag(in) + op + ":byte-identical")
 		return lx
 	}
 	ly, err := dergen.Locate(y)
@@ -315,7 +324,16 @@ func judge(in *input, op string, lx *dergen.CMS, inFails failSet, y []byte, ext 
 	for _, n := range d.notes {
 		switch n {
 		case "stamp-not-emitted":
-			violation("stamp-not-emitted:"+op, fmt.Sprintf("%s %s: token added to a parsed SignerInfo is absent from the marshalled output", in.Src, in.Label), in.replay(op, map[string]any{"output_hex": hex.EncodeToString(y)}))
+			// AddStampToSigned* on a SignerInfo that came out of Unmarshal has no
+			// effect on Marshal (encoding/asn1 emits SignerInfo.RawContent and
+			// ignores the fields). No signed region changes and no in-tree caller
+			// stamps a parsed SignerInfo, so by default this is a reported outcome
+			// class; C16_STRICT_STAMP=1 promotes it to a violation.
+			if strictStamp {
+				violation("stamp-not-emitted:parsed-signerinfo", fmt.Sprintf("%s %s (%s): token added to a parsed SignerInfo is absent from the marshalled output", in.Src, in.Label, op), in.replay(op, map[string]any{"output_hex": hex.EncodeToString(y)}))
+			} else {
+				run.Outcome(op + ":token-not-emitted(parsed SignerInfo keeps RawContent)")
+			}
 		case "content-still-present":
 			violation("detach:content-still-present", fmt.Sprintf("%s %s", in.Src, in.Label), in.replay(op, nil))
 		default:
@@ -327,7 +345,7 @@ func judge(in *input, op string, lx *dergen.CMS, inFails failSet, y []byte, ext 
 	}
 	us := dedupe(d.unsigned)
 	for _, u := range us {
-		run.Outcome(op + ":unsigned-region-reencoded:" + u)
+		run.Outcome(tag(in) + op + ":unsigned-region-reencoded:" + u)
 	}
 	if len(d.signed) == 0 && len(us) == 0 && len(d.notes) == 0 {
 		if wholeIdentical {
@@ -335,7 +353,7 @@ func judge(in *input, op string, lx *dergen.CMS, inFails failSet, y []byte, ext 
 			run.Outcome(op + ":unsigned-region-reencoded:unlocated")
 			us = append(us, "unlocated")
 		} else {
-			run.Outcome(op + ":regions-identical")
+			run.Outcome(tag(in) + op + ":regions-identical")
 		}
 	}
 	// third-party signatures must still verify
@@ -401,6 +419,9 @@ func wantOp(in *input, op string) bool {
 	return false
 }
 
+var stampShape = dergen.Params{Version: "3", DigAlgs: "1n", EContent: "tst", Certs: "leaf", CRLs: "no", Signers: "1", SID: "ias",
+	Attrs: "sorted", SigAlg: "rsa", Unsigned: "none", Trailing: "0", Key: "tsa", ESS: "v1"}
+
 // runOps applies every operation to one input. Returns false when relic
 // refuses to parse it.
 func runOps(in *input) bool {
@@ -429,11 +450,21 @@ func runOps(in *input) bool {
 		osslIn = opensslCMS(x, in.Ext, lx)
 		if osslIn != nil {
 			run.Outcome("openssl:input-not-applicable")
+		} else {
+			run.Outcome("openssl:input-accepted")
 		}
+		prejudgeTokens(lx)
 	}
+	// every operation parses its own private copy of the input, so that an
+	// operation that writes into the parsed structure's backing array cannot
+	// disturb the oracle's copy or the other operations
+	var lastBuf []byte
 	parse := func(top string) *pkcs7.ContentInfoSignedData {
 		var psd *pkcs7.ContentInfoSignedData
-		err, _ := guard(in, top, func() (e error) { psd, e = pkcs7.Unmarshal(in.X); return })
+		// spare capacity behind the data, as in a buffer filled by io.ReadAll
+		lastBuf = make([]byte, len(in.X), 2*len(in.X)+4096)
+		copy(lastBuf, in.X)
+		err, _ := guard(in, top, func() (e error) { psd, e = pkcs7.Unmarshal(lastBuf); return })
 		if err != nil {
 			return nil
 		}
@@ -441,7 +472,7 @@ func runOps(in *input) bool {
 	}
 	// -- parse
 	var psd *pkcs7.ContentInfoSignedData
-	err, panicked := guard(in, "pkcs7.Unmarshal", func() (e error) { psd, e = pkcs7.Unmarshal(in.X); return })
+	err, panicked := guard(in, "pkcs7.Unmarshal", func() (e error) { psd, e = pkcs7.Unmarshal(bytes.Clone(in.X)); return })
 	if panicked {
 		return false
 	}
@@ -449,7 +480,7 @@ func runOps(in *input) bool {
 		run.Outcome("refused:" + refusalClass(in, lx, err))
 		return false
 	}
-	run.Outcome("parsed")
+	run.Outcome(tag(in) + "parsed")
 
 	// -- Unmarshal -> Marshal
 	if wantOp(in, "roundtrip") {
@@ -496,7 +527,7 @@ func runOps(in *input) bool {
 				if lx.HasEContent {
 					want = lx.EContentBody.Of(in.X)
 				}
-				if !bytes.Equal(content, want) || (content == nil) != (want == nil) && lx.HasEContent {
+				if !bytes.Equal(content, want) {
 					violation("detach:returned-content-differs", fmt.Sprintf("%s %s: Detach returned %d bytes, content octets are %d bytes", in.Src, in.Label, len(content), len(want)), in.replay("detach", nil))
 				}
 				ext := in.Ext
@@ -525,7 +556,9 @@ func runOps(in *input) bool {
 			continue
 		}
 		sig := lx.Signers[0].Signature.Of(in.X)
-		tokDER := gen.Token(sig, 0, nil)
+		// a token that differs in bytes from any token the generator may already
+		// have embedded over the same signature (ESS v1 instead of v2)
+		tokDER := gen.Token(sig, 0, &stampShape)
 		tok, err := pkcs7.Unmarshal(tokDER)
 		if err != nil {
 			harnessError(in, variant, "base token refused by relic: "+err.Error())
@@ -549,6 +582,45 @@ func runOps(in *input) bool {
 			}
 			continue
 		}
+		if !bytes.Equal(lastBuf, in.X) {
+			// attributes.go appendAttr appends the new value to Values.Bytes, a
+			// sub-slice of the parsed input whose capacity reaches to the end of the
+			// caller's buffer: the bytes FOLLOWING the attribute (later SignerInfos,
+			// whose RawContent aliases the same array) are overwritten in place.
+			first := 0
+			for first < len(in.X) && lastBuf[first] == in.X[first] {
+				first++
+			}
+			region := "after-structure"
+			for i, s := range lx.Signers {
+				if first >= s.Full.Start && first < s.Full.End {
+					region = fmt.Sprintf("signerInfo[%d]", i)
+					if s.HasSigned && first >= s.SignedAttrs.Start && first < s.SignedAttrs.End {
+						region += ".signedAttrs"
+					}
+				}
+			}
+			run.Outcome(variant + ":input-buffer-overwritten:" + region)
+			// what does relic emit from the structure it scribbled over?
+			var w []byte
+			effect := ""
+			if err, _ := guard(in, "ContentInfoSignedData.Marshal", func() (e error) { w, e = p.Marshal(); return }); err != nil {
+				effect = "Marshal fails: " + err.Error()
+			} else if lw, err := dergen.Locate(w); err != nil {
+				effect = "emitted output is not locatable DER: " + err.Error()
+			} else if d := compare(lx, lw, cmpOpts{added: tokDER, addedOID: oid}); len(d.signed) > 0 {
+				effect = "emitted output differs in signed regions: " + strings.Join(dedupe(d.signed), ",")
+			} else if fails := verifyIndependently(lw, in.Ext); len(fails) > len(inFails) {
+				effect = "a signature of the emitted output no longer verifies"
+			}
+			run.Eval(1)
+			if effect == "" {
+				run.Outcome(variant + ":input-buffer-overwritten-but-output-intact")
+				continue
+			}
+			violation("stamp-on-parsed-signerinfo:appendAttr-overwrites-following-bytes", fmt.Sprintf("%s %s (%s): AddStampToSigned* modified the parsed input buffer from offset %d (%s) because the SignerInfo already carries an attribute of the same type; %s", in.Src, in.Label, variant, first, region, effect), in.replay(variant, map[string]any{"first_modified_offset": first, "effect": effect}))
+			continue
+		}
 		var w []byte
 		if err, pan := guard(in, "ContentInfoSignedData.Marshal", func() (e error) { w, e = p.Marshal(); return }); err != nil {
 			if !pan {
@@ -569,7 +641,7 @@ func runOps(in *input) bool {
 
 	// -- the BER->DER repack that csblob.parseSignature and xar.Verify run before Unmarshal
 	if wantOp(in, "ber-repack") {
-		berRepack(in, lx, x)
+		berRepack(in, lx, bytes.Clone(x))
 	}
 	return true
 }
@@ -657,7 +729,15 @@ func checkRelicBuilt(in *input, l *dergen.CMS) {
 	}
 	for i, si := range l.Signers {
 		if !si.HasSigned {
-			run.Outcome("relic-built:no-signed-attrs")
+			// RFC 5652 5.3: signedAttrs MUST be present unless the content type is id-data
+			if l.EContentType == dergen.OIDData {
+				run.Outcome("relic-built:no-signed-attrs(id-data)")
+			} else if in.Src == "built" {
+				// the harness drove the builder that way itself; no in-tree caller is implicated
+				run.Outcome("relic-built:no-signed-attrs(builder driven without attributes by the harness)")
+			} else {
+				violation("relic-built:signed-attrs-absent-for-non-data-content:"+in.Signer+"-signer", fmt.Sprintf("%s %s: signer %d signs eContentType %s without signed attributes (no contentType / messageDigest attribute at all)", in.Src, in.Label, i, l.EContentType), in.replay("relic-built", nil))
+			}
 			continue
 		}
 		one := func(oid, name string) []byte {
